@@ -653,6 +653,38 @@ func ruleC10R4(w *World, r *Report) {
 			}
 		}
 	}
+	// the same through a strings.Builder / bytes.Buffer: WriteByte(' ') / WriteString(" "), WriteString(tok.Raw)
+	isWriter := func(c *ssa.Call) string {
+		sc := c.Call.StaticCallee()
+		if sc == nil || sc.Signature.Recv() == nil || sc.Pkg == nil {
+			return ""
+		}
+		if p := sc.Pkg.Pkg.Path(); p != "strings" && p != "bytes" {
+			return ""
+		}
+		return sc.Name()
+	}
+	for _, b := range m.Blocks {
+		for _, in := range b.Instrs {
+			c, ok := in.(*ssa.Call)
+			if !ok || len(c.Call.Args) != 2 {
+				continue
+			}
+			switch isWriter(c) {
+			case "WriteByte", "WriteRune":
+				if k, isC := constInt(c.Call.Args[1]); isC && (k == ' ' || k == '\n' || k == '\t') {
+					sepBlocks = append(sepBlocks, b)
+				}
+			case "WriteString":
+				if sv, isC := constString(c.Call.Args[1]); isC && sv != "" && strings.TrimSpace(sv) == "" {
+					sepBlocks = append(sepBlocks, b)
+				}
+				if f, ok := w.tokenFieldLoad(c.Call.Args[1]); ok && f == "Raw" {
+					rawBlocks = append(rawBlocks, b)
+				}
+			}
+		}
+	}
 	if len(sepBlocks) != 1 || len(rawBlocks) != 1 {
 		r.undecided(rule, "(*BadNode).SQL separator", w.pos(m.Pos()), fmt.Sprintf("%d blocks append a blank, %d append Token.Raw (want one each)", len(sepBlocks), len(rawBlocks)))
 		return
@@ -680,6 +712,18 @@ func ruleC10R4(w *World, r *Report) {
 			}
 			if w.refutedByNonEmpty(iff.Cond, field) && succ == 0 {
 				return true
+			}
+			// a predicate of the module asked about the token (separatedFromPrevious(tok)): true whenever the field is non-empty
+			if c, ok := iff.Cond.(*ssa.Call); ok && succ == 1 {
+				if h := c.Call.StaticCallee(); h != nil && corePkg(fnPkgPath(h)) && w.predImpliedByNonEmpty(h, field) {
+					return true
+				}
+			}
+			// the accumulator is a Builder: `sql.Len() > 0` / `!= 0`
+			if bo, ok := iff.Cond.(*ssa.BinOp); ok {
+				if c, ok := bo.X.(*ssa.Call); ok && isWriter(c) == "Len" && constIntIs(bo.Y, 0) {
+					return ((bo.Op == token.GTR || bo.Op == token.NEQ) && succ == 1) || (bo.Op == token.EQL && succ == 0)
+				}
 			}
 			// sql != "" (the accumulator: a string phi of the loop head)
 			if bo, ok := iff.Cond.(*ssa.BinOp); ok && isStringType(bo.X.Type()) {
@@ -810,6 +854,74 @@ func constIntIs(v ssa.Value, k int64) bool {
 }
 
 // impliedByNonEmpty: cond is true whenever Token.<field> is non-empty.
+// predImpliedByNonEmpty: h(tok) bool answers true whenever tok.<field> is non-empty: no path through h that avoids the
+// edges a non-empty field rules out ends in a false answer.
+func (w *World) predImpliedByNonEmpty(h *ssa.Function, field string) bool {
+	if h.Blocks == nil || len(h.Params) != 1 || h.Signature.Results().Len() != 1 || len(naturalLoops(h)) > 0 {
+		return false
+	}
+	excluded := func(b *ssa.BasicBlock, succ int) bool {
+		iff, ok := b.Instrs[len(b.Instrs)-1].(*ssa.If)
+		if !ok {
+			return false
+		}
+		return (w.impliedByNonEmpty(iff.Cond, field) && succ == 1) || (w.refutedByNonEmpty(iff.Cond, field) && succ == 0)
+	}
+	// blocks and edges reachable when the field is non-empty
+	reach := map[*ssa.BasicBlock]bool{h.Blocks[0]: true}
+	edge := map[[2]*ssa.BasicBlock]bool{}
+	work := []*ssa.BasicBlock{h.Blocks[0]}
+	for len(work) > 0 {
+		b := work[0]
+		work = work[1:]
+		for i, sb := range b.Succs {
+			if excluded(b, i) {
+				continue
+			}
+			edge[[2]*ssa.BasicBlock{b, sb}] = true
+			if !reach[sb] {
+				reach[sb] = true
+				work = append(work, sb)
+			}
+		}
+	}
+	var mayBeFalse func(v ssa.Value, at *ssa.BasicBlock, seen map[ssa.Value]bool) bool
+	mayBeFalse = func(v ssa.Value, at *ssa.BasicBlock, seen map[ssa.Value]bool) bool {
+		if b, ok := constBool(v); ok {
+			return !b
+		}
+		if w.impliedByNonEmpty(v, field) {
+			return false
+		}
+		if phi, ok := v.(*ssa.Phi); ok && !seen[v] {
+			seen[v] = true
+			for i, e := range phi.Edges {
+				p := phi.Block().Preds[i]
+				if !reach[p] || !edge[[2]*ssa.BasicBlock{p, phi.Block()}] {
+					continue
+				}
+				if mayBeFalse(e, p, seen) {
+					return true
+				}
+			}
+			return false
+		}
+		return true
+	}
+	n := 0
+	for _, b := range h.Blocks {
+		ret, ok := b.Instrs[len(b.Instrs)-1].(*ssa.Return)
+		if !ok {
+			continue
+		}
+		n++
+		if reach[b] && mayBeFalse(ret.Results[0], b, map[ssa.Value]bool{}) {
+			return false
+		}
+	}
+	return n > 0
+}
+
 func (w *World) impliedByNonEmpty(cond ssa.Value, field string) bool {
 	bo, ok := cond.(*ssa.BinOp)
 	if !ok {
